@@ -85,12 +85,25 @@ func annotationsEqual(v *sym.V, tag string, a, b error) {
 	v.Assert("source@"+tag, f1 == f2 && l1 == l2 && fn1 == fn2 && ok1 == ok2)
 }
 
+// deepStack attaches a stack trace captured n calls further down.
+//
+//go:noinline
+func deepStack(n int, e error) error {
+	if n == 0 {
+		return errors.WithStack(e)
+	}
+	return deepStack(n-1, e)
+}
+
 // H_C11_Annotations: annotations are identical before and after 1 and 2 hops
 // between processes that know the types.
 func H_C11_Annotations(v *sym.V) {
 	g := newG(v, sym.Class(v.Param("cls", int(sym.REG))))
 	b := build(v, g, "e")
 	e := b.Err
+	if v.Choice("deepstack", 2) == 1 {
+		e = deepStack(20, e)
+	}
 	e1 := wire.Hop(e)
 	e2 := wire.Hop(e1)
 	annotationsEqual(v, "hop1", e, e1)
